@@ -1543,7 +1543,9 @@ class ComplexModulus(Operator):
                         out.assign(x)
                         tmp = u / op(x)
                         out.real *= tmp
-                        out.imag *= tmp
+                        if not out.space.is_real:
+                            # No imaginary part to scale in a real space
+                            out.imag *= tmp
                         return out
 
                     @property
@@ -1738,7 +1740,9 @@ class ComplexModulusSquared(Operator):
                         """Implement ``self(u, out)``."""
                         out.assign(x)
                         out.real *= u
-                        out.imag *= u
+                        if not out.space.is_real:
+                            # No imaginary part to scale in a real space
+                            out.imag *= u
                         out *= 2
                         return out
 
